@@ -8,7 +8,7 @@
 //        script: B make_spawner | S<payload> spawn | J<k> join k-th spawned | U unwrap | D drop pool
 //        sched : x <mv> <mv> ...  explicit moves (t<tid> / w<tid> = spurious wake of tid), then lowest tid first
 //                <policy> <seed> <spur>    policy in u n s k r (see choose()), spurious wake probability spur/64
-//   E <workers> <script> | <spur_budget> <max_traces> <mv> <mv> ...
+//   E <workers> <script> | <spur_budget> <max_traces> <red 0|1> <mv> <mv> ...
 //        every schedule extending the explicit prefix (depth-first, re-executing the pool)
 //
 // Thread ids: 0 = submitter, 1..workers = pool threads in creation order.  A job body has
@@ -25,7 +25,7 @@ use brotli::enc::worker_pool::WorkerJoinable;
 use brotli::enc::{StandardAlloc, WorkerPool};
 use core::marker::PhantomData;
 use std::panic::{catch_unwind, AssertUnwindSafe};
-use std::sync::atomic::{AtomicUsize, Ordering};
+use std::sync::atomic::{AtomicBool, AtomicUsize, Ordering};
 use std::sync::{Arc, Condvar, Mutex, MutexGuard, RwLock, Weak};
 use std::time::Duration;
 use vharness::*;
@@ -134,6 +134,13 @@ impl Controller for Ctl {
                 }
                 g.woken.extend(woken);
             }
+            Event::Panicked => {
+                // a pool thread unwinds: either a job body panicked (announced by the job) or
+                // the pool code itself did
+                if !JOB_PANICS.swap(false, Ordering::SeqCst) && g.panicked.is_none() {
+                    g.panicked = Some("PANIC(pool code panicked in a worker thread)".to_string());
+                }
+            }
             Event::Exit => {
                 g.th[tid].st = St::Exited;
                 self.cv.notify_all();
@@ -176,6 +183,8 @@ static EXEC: [AtomicUsize; MAXJOBS] = {
     [Z; MAXJOBS]
 };
 
+static JOB_PANICS: AtomicBool = AtomicBool::new(false);
+
 pub fn job_value(payload: u64) -> u64 {
     hmix(hmix(12345, SALT), payload)
 }
@@ -184,6 +193,7 @@ fn job(payload: u64, index: usize, _thread_size: usize, data: &Vec<u64>, _alloc:
     vs::yield_point(1); // Holding: the body has not run yet
     EXEC[index % MAXJOBS].fetch_add(1, Ordering::SeqCst);
     if payload & PANIC_BIT != 0 {
+        JOB_PANICS.store(true, Ordering::SeqCst);
         panic!("job body panics");
     }
     let v = hmix(hmix(12345, data[0]), payload);
@@ -323,6 +333,9 @@ struct View<'a> {
     last: Option<Mv>,
     last_notified: bool,
     woken: &'a [usize],
+    /// lowest enabled pool thread that sits at a purely local step (job body about to run, or
+    /// notified inside wait): such a step commutes with every other move
+    local: Option<usize>,
 }
 
 struct RunOut {
@@ -398,9 +411,12 @@ fn record(g: &mut Shared, mv: &str) -> String {
     for t in en.iter() {
         mask |= 1 << t;
     }
+    // once every thread has exited the submitter's locals (spawner Arc, join handles, queue) are being
+    // torn down by the harness itself: no count is reported for that last record
+    let all_exited = g.th.iter().all(|t| t.st == St::Exited);
     let strong = match g.weak {
-        Some(ref w) => format!("{}", w.strong_count()),
-        None => "-".to_string(),
+        Some(ref w) if !all_exited => format!("{}", w.strong_count()),
+        _ => "-".to_string(),
     };
     let ev = if g.events.is_empty() {
         "-".to_string()
@@ -500,6 +516,14 @@ fn run_pool(nworkers: usize, ops: &[Op], choose: &mut dyn FnMut(&View) -> Option
             break;
         }
         let woken = g.woken.clone();
+        let local = en.iter().cloned().find(|t| {
+            *t > 0
+                && match g.th[*t].st {
+                    St::Blocked(Event::User(1)) => true,
+                    St::Blocked(Event::Wait(_)) => g.th[*t].notified,
+                    _ => false,
+                }
+        });
         let view = View {
             step: out.sched.len(),
             enabled: &en,
@@ -507,6 +531,7 @@ fn run_pool(nworkers: usize, ops: &[Op], choose: &mut dyn FnMut(&View) -> Option
             last,
             last_notified: g.did_notify,
             woken: &woken,
+            local,
         };
         let mv = match choose(&view) {
             Some(m) => m,
@@ -683,8 +708,8 @@ fn cmd_pool(toks: &[&str]) -> String {
 }
 
 fn cmd_explore(toks: &[&str]) -> String {
-    // E <workers> <script> | <spur_budget> <max_traces> <prefix...>
-    if toks.len() < 6 || toks[3] != "|" {
+    // E <workers> <script> | <spur_budget> <max_traces> <red> <prefix...>
+    if toks.len() < 7 || toks[3] != "|" {
         return "BADREQ".to_string();
     }
     let nworkers: usize = toks[1].parse().unwrap_or(1);
@@ -694,8 +719,9 @@ fn cmd_explore(toks: &[&str]) -> String {
     };
     let budget: usize = toks[4].parse().unwrap_or(0);
     let max_traces: usize = toks[5].parse().unwrap_or(1);
+    let red = toks[6] == "1";
     let mut prefix = Vec::new();
-    for t in &toks[6..] {
+    for t in &toks[7..] {
         match Mv::parse(t) {
             Some(m) => prefix.push(m),
             None => return "BADREQ".to_string(),
@@ -705,54 +731,54 @@ fn cmd_explore(toks: &[&str]) -> String {
     let mut out: Vec<String> = Vec::new();
     let mut complete = true;
     let mut bad = false;
+    let mut aborted = 0usize;
     loop {
         let mut used = 0usize;
-        let p = &path;
-        let pre = &prefix;
+        let mut counts: Vec<usize> = Vec::new();
         let mut badstep = false;
-        let o = run_pool(nworkers, &ops, &mut |v: &View| {
-            // options: enabled threads ascending, then (budget permitting) spurious wake-ups
-            let mut opts: Vec<Mv> = v.enabled.iter().map(|t| Mv::T(*t)).collect();
-            if used < budget {
-                opts.extend(v.spur.iter().map(|t| Mv::W(*t)));
-            }
-            let m = if v.step < pre.len() {
-                if opts.contains(&pre[v.step]) {
-                    pre[v.step]
-                } else {
-                    badstep = true;
-                    opts[0]
+        let o = {
+            let p = &path;
+            let pre = &prefix;
+            run_pool(nworkers, &ops, &mut |v: &View| {
+                // options: enabled threads ascending, then (budget permitting) spurious wake-ups;
+                // with the reduction a thread at a purely local step runs first and alone
+                let mut opts: Vec<Mv> = Vec::new();
+                match (red, v.local) {
+                    (true, Some(t)) => opts.push(Mv::T(t)),
+                    _ => {
+                        opts.extend(v.enabled.iter().map(|t| Mv::T(*t)));
+                        if used < budget {
+                            opts.extend(v.spur.iter().map(|t| Mv::W(*t)));
+                        }
+                    }
                 }
-            } else {
-                let d = v.step - pre.len();
-                let c = if d < p.len() { p[d] } else { 0 };
-                opts[c.min(opts.len() - 1)]
-            };
-            if let Mv::W(_) = m {
-                used += 1;
-            }
-            Some(m)
-        });
+                counts.push(opts.len());
+                let m = if v.step < pre.len() {
+                    if opts.contains(&pre[v.step]) {
+                        pre[v.step]
+                    } else {
+                        badstep = true;
+                        opts[0]
+                    }
+                } else {
+                    let d = v.step - pre.len();
+                    let c = if d < p.len() { p[d] } else { 0 };
+                    opts[c.min(opts.len() - 1)]
+                };
+                if let Mv::W(_) = m {
+                    used += 1;
+                }
+                Some(m)
+            })
+        };
         if badstep {
             bad = true;
         }
-        // number of options at each step, under the budget rule
         let line = render(&o);
         let sched: Vec<String> = o.sched.iter().map(|m| m.show()).collect();
         out.push(format!("{}#{}#{}", sched.join(" "), hash_str(0, &line), o.end));
-        // recompute the option counts along this run to backtrack
-        let mut counts: Vec<usize> = Vec::new();
-        {
-            let mut u = 0usize;
-            for (k, m) in o.sched.iter().enumerate() {
-                // nopts[k] = enabled + spur; with an exhausted budget only the enabled ones count
-                let total = o.nopts[k];
-                let nspur = spur_count(&o.steps[k]);
-                counts.push(if u < budget { total } else { total - nspur });
-                if let Mv::W(_) = m {
-                    u += 1;
-                }
-            }
+        if o.end != "ok" {
+            aborted += 1;
         }
         // extend path to the full length of this run (choices beyond it were 0)
         let depth = o.sched.len().saturating_sub(prefix.len());
@@ -764,7 +790,7 @@ fn cmd_explore(toks: &[&str]) -> String {
         let mut advanced = false;
         while let Some(c) = path.pop() {
             let k = prefix.len() + path.len();
-            if c + 1 < counts[k] {
+            if k < counts.len() && c + 1 < counts[k] {
                 path.push(c + 1);
                 advanced = true;
                 break;
@@ -773,11 +799,11 @@ fn cmd_explore(toks: &[&str]) -> String {
         if !advanced {
             break;
         }
-        if out.len() >= max_traces {
+        if out.len() >= max_traces || bad {
             complete = false;
             break;
         }
-        if o.end != "ok" && out.len() >= 50 {
+        if aborted >= 40 {
             // every abandoned run leaks its threads: stop early
             complete = false;
             break;
@@ -792,20 +818,16 @@ fn cmd_explore(toks: &[&str]) -> String {
     )
 }
 
-/// number of un-notified waiters (`w`) in the status field of a step record
-fn spur_count(rec: &str) -> usize {
-    let f: Vec<&str> = rec.split('|').collect();
-    if f.len() < 2 {
-        return 0;
-    }
-    f[1].split('.').filter(|s| *s == "w").count()
-}
-
 fn main() {
     quiet_panics();
     serve(|t| match t[0] {
         "Q" => run_queue(&t[1..]),
         "P" => cmd_pool(t),
+        "PH" => {
+            let l = cmd_pool(t);
+            let end = l.rsplit("end=").next().unwrap_or("?").to_string();
+            format!("{}#{}", hash_str(0, &l), end)
+        }
         "E" => cmd_explore(t),
         "V" => match t.get(1).and_then(|x| x.parse::<u64>().ok()) {
             Some(p) => format!("{}", job_value(p)),
